@@ -54,6 +54,19 @@ CLAIMED = {
          'arguments, KeyError) found by this check and fixed. pmap / shard_map / custom_vjp / eval_shape not run. No axioms.',
     technique='Coq proof (joint invariant of inner flatten and placed unflatten by fuel induction; placement injectivity) + per-run model-vs-implementation correspondence by vm_compute',
     ref='DESIGN.md section 5, C04'),
+  'C08': dict(
+    text='PARTIAL. A Gallina model of the state bookkeeping of nnx.vmap / nnx.scan / nnx.grad at the level of the argument\'s Variables: StateAxes.map_prefix (first matching filter), per-index '
+         'views of axis groups, shared None groups with jax.vmap\'s batchedness tracked by dependency, scan with per-step slices, threaded Carry state and broadcast state re-read from the '
+         'original, gradients as symbolic derivatives of polynomial losses over the Variables selected by wrt / DiffState. Proved for all inputs: each Variable gets the axis of its first '
+         'matching filter; if vmap accepts a body then what it leaves in shared state is identical at every index (non-interference of the batchedness analysis), otherwise it is rejected; '
+         'scan equals the Python loop for every body that does not write broadcast state, in any step order; the gradient lists exactly the selected Variables and deriv is the derivative. '
+         'Tied to /repo per run: random modules, StateAxes, non-square shapes, integer bodies, lengths, reverse, polynomial losses; outputs, final Variables and gradients compared in Coq '
+         'and against the real eager per-index loop / Python loop / jax.grad of the functional form; aliasing and out_axes rejections by probes.',
+    note='Trusted: Coq kernel, vm_compute, harness, jaxcompat, jax.vmap / lax.scan / jax.grad (idealised as map / fold / symbolic derivative). Axis-group Variables are represented by their '
+         'slices: the moveaxis arithmetic is tied to the code by the correspondence only. Graph split/merge around the transforms is C03/C04. Known finding F22: writes to broadcast state '
+         'inside scan are silently dropped (refuted inside the model: C08_broadcast_write_refuted). split_rngs patterns, in_axes prefixes over nested containers, pmap not covered. No axioms.',
+    technique='Coq proof (non-interference by induction over the body; loop/scan simulation with a representation invariant; polynomial derivative by ring) + per-run correspondence by vm_compute',
+    ref='DESIGN.md section 5, C08'),
   'C09': dict(
     text='Linen: on the reference semantics of C01, every key handed out is addressed by (stream after the params fallback, module path, per-scope count) and no two draws of one init/apply share '
          'an address (invariant over the interpreter, all programs); the byte string hashed with the separator determines the path for zero-free components (F8 and the no-separator collision '
